@@ -131,12 +131,17 @@ type c10B struct {
 	upgrades map[uint32]bool // prevTerm -> upgrade entry present
 	sSealed  bool
 	sTerm    uint32
-	ref      c10KR // key material of the active node after its last key operation
+	sRoot    []byte // root key the standby holds according to the model (the one it was unsealed with / last reloaded)
+	ref      c10KR  // key material of the active node after its last key operation
 	cts      []c10CT
 
 	steps  []string
 	kinds  []string
 	failed bool
+	// soft: the standby step comparisons record their violation but the scenario goes on, so
+	// the end state (promotion, seal, fresh instance) is judged as well
+	soft     bool
+	softHits int
 
 	// single-fault injection: while armed, a key operation may return an error
 	faultArmed bool
@@ -161,6 +166,16 @@ func (e *c10B) viol(kind, format string, a ...any) {
 	e.failed = true
 	e.r.Violate("C10-"+kind, e.caseID, fmt.Sprintf("[%s] ", e.caseID)+fmt.Sprintf(format, a...),
 		map[string]any{"steps": e.steps, "transactional": e.tx, "namespaced": e.ns != nil, "model_term": e.term})
+}
+
+// violS is viol for the standby step comparisons: fatal for the history unless e.soft.
+func (e *c10B) violS(kind, format string, a ...any) {
+	was := e.failed
+	e.viol(kind, format, a...)
+	if e.soft {
+		e.failed = was
+		e.softHits++
+	}
 }
 
 // tolerate reports whether err is the legitimate outcome of an injected storage fault.
@@ -390,6 +405,27 @@ func (e *c10B) wrongUnseal(b SecurityBarrier, who string) {
 		}
 		e.r.Count("wrong_key_unseals_refused", 1)
 		e.r.Count("wrong_key_kind:"+c.name, 1)
+	}
+	// the all-zero key (what a wiped key buffer holds) never opens anything; always tried, no PRNG draw
+	for _, n := range []int{32, 16} {
+		zero := make([]byte, n)
+		err := b.Unseal(c10Ctx, zero)
+		if err == nil || !b.Sealed() || c10Raw(b).keyring != nil {
+			e.viol("all-zero-key-unsealed", "%s: Unseal with a %d-byte all-zero key: err=%v sealed=%v keyring-present=%v (the keyring in storage was written under a wiped root key)", who, n, err, b.Sealed(), c10Raw(b).keyring != nil)
+			return
+		}
+		e.r.Count("wrong_key_unseals_refused", 1)
+		e.r.Count("wrong_key_kind:all-zero", 1)
+	}
+	// the root key the last root-key rotation superseded: always tried as well
+	if n := len(e.oldRoots); n > 0 && !bytes.Equal(e.oldRoots[n-1], e.root) {
+		err := b.Unseal(c10Ctx, append([]byte(nil), e.oldRoots[n-1]...))
+		if err == nil || !b.Sealed() || c10Raw(b).keyring != nil {
+			e.viol("wrong-key-unsealed", "%s: Unseal with the superseded root key: err=%v sealed=%v keyring-present=%v", who, err, b.Sealed(), c10Raw(b).keyring != nil)
+			return
+		}
+		e.r.Count("wrong_key_unseals_refused", 1)
+		e.r.Count("superseded_root_key_refused", 1)
 	}
 }
 
@@ -738,13 +774,18 @@ func (e *c10B) opReload() {
 }
 
 func (e *c10B) opPersistOnly() {
-	var err error
-	var what string
 	if e.rng.Chance(1, 2) {
-		what = "set-rotation-config"
+		e.persistOnly("set-rotation-config")
+	} else {
+		e.persistOnly("auto-rotate-check")
+	}
+}
+
+func (e *c10B) persistOnly(what string) {
+	var err error
+	if what == "set-rotation-config" {
 		err = e.p.SetRotationConfig(c10Ctx, KeyRotationConfig{MaxOperations: AbsoluteOperationMinimum + int64(e.rng.Intn(1000)), Interval: 48 * time.Hour})
 	} else {
-		what = "auto-rotate-check"
 		_, err = e.p.CheckBarrierAutoRotate(c10Ctx)
 	}
 	e.step("persist", "%s err=%v", what, err)
@@ -820,42 +861,147 @@ func (e *c10B) pathIntact() bool {
 
 func (e *c10B) opStandby() { e.opStandbyX(false) }
 
-func (e *c10B) opStandbyX(followOnly bool) {
+// activeKR is the key material of the active node: live when it is unsealed, otherwise as it
+// was after its last key operation.
+func (e *c10B) activeKR() c10KR {
+	if !e.sealed {
+		return c10Snap(c10Raw(e.p).keyring)
+	}
+	return e.ref
+}
+
+// sbUnseal starts the standby (a second instance on the same store) or unseals it again.
+func (e *c10B) sbUnseal() bool {
 	if e.s == nil {
 		e.s = NewAESGCMBarrier(e.phys, e.ns)
 		e.sSealed = true
 	}
-	if e.sSealed {
-		if e.rng.Chance(1, 2) {
-			e.sealedSweep(e.s, "standby")
-			if e.failed {
-				return
-			}
+	if !e.sSealed {
+		return true
+	}
+	if e.rng.Chance(1, 2) {
+		e.sealedSweep(e.s, "standby")
+		if e.failed {
+			return false
 		}
-		e.wrongUnseal(e.s, "standby")
+	}
+	e.wrongUnseal(e.s, "standby")
+	if e.failed {
+		return false
+	}
+	e.step("standby-unseal", "standby unseal")
+	if !e.unsealCheck(e.s, "standby") {
+		return false
+	}
+	e.sSealed = false
+	e.sTerm = e.term
+	e.sRoot = append([]byte(nil), e.root...)
+	e.readAll(e.s, "standby after unseal")
+	return !e.failed
+}
+
+// sbCompare looks at the standby directly after ONE step of the upgrade path (one CheckUpgrade
+// that installed a term, a ReloadRootKey, a ReloadKeyring): the step must not have touched the
+// root key the standby holds (model: the one it was unsealed with or last reloaded), every term
+// key it holds must be the active node's key of that term, the terms must be gap-free, the
+// standby must still recognise its root key through the API, and - once it is level with the
+// active node and holds the current root key (always after a keyring reload: mustFull) - the two
+// keyrings must be identical field by field.
+func (e *c10B) sbCompare(stepName string, mustFull bool) {
+	raw := c10Raw(e.s)
+	if raw.keyring == nil {
+		e.violS("standby-keyring-differs-from-active", "standby after %s: no keyring although unsealed", stepName)
+		return
+	}
+	got := c10Snap(raw.keyring)
+	want := e.activeKR()
+	e.r.Count("standby_steps_compared", 1)
+	e.r.Count("standby_steps_compared:"+stepName, 1)
+	rootOK := bytes.Equal(got.Root, e.sRoot)
+	if !rootOK {
+		if len(got.Root) > 0 && c10AllZero(got.Root) {
+			e.violS("standby-root-key-zeroed", "standby after %s (now at term %d): the root key in its keyring is %d zero bytes; before the step it held the root key it was unsealed with (active node: %s, standby: %s)", stepName, got.Active, len(got.Root), want, got)
+		} else {
+			e.violS("standby-keyring-differs-from-active", "standby after %s (now at term %d): the step changed the root key in its keyring to one that is neither the key it held nor all-zero (active node: %s, standby: %s)", stepName, got.Active, want, got)
+		}
 		if e.failed {
 			return
 		}
-		e.step("standby-unseal", "standby unseal")
-		if !e.unsealCheck(e.s, "standby") {
+	}
+	var ts []int
+	for t := range got.Keys {
+		ts = append(ts, int(t))
+	}
+	sort.Ints(ts)
+	if len(want.Keys) > 0 {
+		for _, ti := range ts {
+			t := uint32(ti)
+			w, ok := want.Keys[t]
+			if !ok {
+				e.violS("standby-keyring-differs-from-active", "standby after %s holds a key for term %d, the active node has none (active node: %s, standby: %s)", stepName, t, want, got)
+				return
+			}
+			if !bytes.Equal(w, got.Keys[t]) {
+				e.violS("standby-keyring-differs-from-active", "standby after %s: key bytes of term %d differ from the active node's (active node: %s, standby: %s)", stepName, t, want, got)
+				return
+			}
+			if len(w) > 0 && c10AllZero(w) {
+				e.violS("standby-keyring-differs-from-active", "standby after %s: key of term %d is all-zero", stepName, t)
+				return
+			}
+		}
+	}
+	for t := uint32(1); t <= got.Active; t++ {
+		if _, ok := got.Keys[t]; !ok {
+			e.violS("standby-keyring-differs-from-active", "standby after %s: active term %d but no key for term %d", stepName, got.Active, t)
 			return
 		}
-		e.sSealed = false
-		e.sTerm = e.term
-		e.readAll(e.s, "standby after unseal")
+	}
+	// the same through the exported API
+	if rootOK {
+		if err := e.s.VerifyRoot(append([]byte(nil), e.sRoot...)); err != nil {
+			e.violS("standby-verify-root-failed", "standby after %s: VerifyRoot(the root key it holds): %v", stepName, err)
+			return
+		}
+		e.r.Count("standby_verify_root_ok", 1)
+	}
+	if err := e.s.VerifyRoot(make([]byte, len(e.sRoot))); err == nil {
+		e.violS("standby-root-key-zeroed", "standby after %s: VerifyRoot(all-zero key) succeeds", stepName)
 		return
 	}
-	switch x := e.rng.Intn(6); {
-	case x == 0 && !followOnly:
-		e.step("standby-seal", "standby seal")
-		e.sealCheck(e.s, "standby")
-		e.sSealed = true
+	if kr, err := e.s.Keyring(); err != nil || kr == nil {
+		e.violS("standby-keyring-differs-from-active", "standby after %s: Keyring(): %v", stepName, err)
+		return
+	} else if rootOK && (!bytes.Equal(kr.RootKey(), e.sRoot) || kr.ActiveTerm() != got.Active) {
+		e.violS("standby-keyring-differs-from-active", "standby after %s: Keyring() disagrees with the barrier's keyring", stepName)
 		return
 	}
-	// follow the upgrade path exactly as a standby does (ha.go performKeyUpgrades)
+	level := got.Active == e.term && bytes.Equal(e.sRoot, e.root)
+	if mustFull && !level {
+		e.violS("standby-keyring-differs-from-active", "standby after %s ends at term %d (model %d), holds the current root key: %v", stepName, got.Active, e.term, bytes.Equal(e.sRoot, e.root))
+		return
+	}
+	if level && rootOK && len(want.Keys) > 0 {
+		if d := got.diff(want); d != "" {
+			e.violS("standby-keyring-differs-from-active", "standby after %s is level with the active node (term %d, current root key) but the keyrings differ: %s (active node: %s, standby: %s)", stepName, e.term, d, want, got)
+			return
+		}
+		e.r.Count("standby_steps_compared_field_by_field_equal", 1)
+	}
+}
+
+// sbFollow lets the unsealed standby follow the upgrade path the way the code does it:
+//
+//	"reload":       ha.go performKeyUpgrades = CheckUpgrade until nothing is left, ReloadRootKey, ReloadKeyring
+//	"upgrade-only": ha.go periodic check / invalidation.go keyringTermInvalidation = CheckUpgrade
+//	                until nothing is left (plus ReloadRootKey when the model says the root key
+//	                was rotated since the standby last read it)
+//
+// with a comparison after every single step. Reports whether the standby is level afterwards.
+func (e *c10B) sbFollow(style string) bool {
 	intact := e.pathIntact()
 	behind := e.term - e.sTerm
-	rootStale := !bytes.Equal(c10Raw(e.s).keyring.RootKey(), e.root)
+	rootStale := !bytes.Equal(e.sRoot, e.root)
 	var err error
 	upgraded := 0
 	for i := 0; i < 64; i++ {
@@ -866,56 +1012,96 @@ func (e *c10B) opStandbyX(followOnly bool) {
 			break
 		}
 		upgraded++
-		if nt != e.sTerm+uint32(upgraded) {
-			e.step("standby-follow", "standby follow")
-			e.viol("standby-upgrade-term", "CheckUpgrade installed term %d, expected %d", nt, e.sTerm+uint32(upgraded))
-			return
+		e.step("standby-upgrade", "standby check-upgrade -> term %d", nt)
+		if nt != e.sTerm+1 {
+			e.viol("standby-upgrade-term", "CheckUpgrade installed term %d, expected %d", nt, e.sTerm+1)
+			return false
+		}
+		e.sTerm = nt
+		e.r.Count("standby_upgrade_steps", 1)
+		e.sbCompare("check-upgrade", false)
+		if e.failed {
+			return false
 		}
 	}
-	if err == nil {
+	reloadedRoot, reloadedRing := false, false
+	if err == nil && (style == "reload" || rootStale) {
 		err = e.s.ReloadRootKey(c10Ctx)
+		if err == nil {
+			reloadedRoot = true
+			if e.half {
+				// the root-key record and the keyring may disagree after a half-persisted key
+				// operation; whatever the standby holds now is judged by the keyring reload
+				e.sRoot = append([]byte(nil), c10Raw(e.s).keyring.rootKey...)
+			} else {
+				e.sRoot = append([]byte(nil), e.root...)
+				e.sbCompare("reload-root-key", false)
+				if e.failed {
+					return false
+				}
+			}
+		}
 	}
-	if err == nil {
+	if err == nil && style == "reload" {
 		err = e.s.ReloadKeyring(c10Ctx)
+		reloadedRing = err == nil
 	}
-	e.step("standby-follow", "standby follow behind=%d root-stale=%v path-intact=%v upgraded=%d err=%v", behind, rootStale, intact, upgraded, err)
+	e.step("standby-follow", "standby follow (%s) behind=%d root-stale=%v path-intact=%v upgraded=%d reload-root=%v reload-keyring=%v err=%v", style, behind, rootStale, intact, upgraded, reloadedRoot, reloadedRing, err)
 	if err != nil && e.half {
 		e.r.Count("observation_reload_refused_after_half_persisted_key_operation", 1)
 		e.sealCheck(e.s, "standby")
 		e.sSealed = true
-		return
+		return false
 	}
 	if err != nil {
 		if intact {
-			e.viol("standby-follow-failed", "standby %d term(s) behind (root key stale=%v) with every upgrade entry present cannot follow: %v", behind, rootStale, err)
-			return
+			e.viol("standby-follow-failed", "standby %d term(s) behind (root key stale=%v) with every upgrade entry present cannot follow (%s): %v", behind, rootStale, style, err)
+			return false
 		}
 		// upgrade entries were destroyed before it looked: the real node shuts down and is unsealed again
 		e.r.Count("standby_follow_refused_path_broken", 1)
 		e.sealCheck(e.s, "standby")
 		e.sSealed = true
-		return
+		return false
 	}
 	if intact && upgraded != int(behind) {
 		e.viol("standby-follow-failed", "standby %d term(s) behind installed %d upgrade(s)", behind, upgraded)
-		return
+		return false
+	}
+	if style != "reload" {
+		if e.sTerm != e.term {
+			e.r.Count("standby_upgrade_only_follows_still_behind_path_broken", 1)
+			return false
+		}
+		e.r.Count("standby_upgrade_only_follows_ok", 1)
+		if behind > 0 {
+			e.r.Count("standby_upgrade_only_follows_ok_behind", 1)
+		}
+		e.readAll(e.s, "standby after check-upgrade")
+		return !e.failed
 	}
 	got := c10Snap(c10Raw(e.s).keyring)
-	var want c10KR
-	if !e.sealed {
-		want = c10Snap(c10Raw(e.p).keyring)
-	} else {
-		want = e.ref
-	}
+	want := e.activeKR()
 	if got.Active != e.term || !bytes.Equal(got.Root, e.root) {
-		e.viol("standby-keyring-differs", "standby (was %d term(s) behind, root stale=%v) followed without error but ends at term %d (model %d), root key current=%v", behind, rootStale, got.Active, e.term, bytes.Equal(got.Root, e.root))
-		return
+		if len(got.Root) > 0 && c10AllZero(got.Root) {
+			e.violS("standby-root-key-zeroed", "standby followed (%s) without error but the root key in its keyring is all-zero", style)
+		} else {
+			e.viol("standby-keyring-differs", "standby (was %d term(s) behind, root stale=%v) followed without error but ends at term %d (model %d), root key current=%v", behind, rootStale, got.Active, e.term, bytes.Equal(got.Root, e.root))
+		}
+		if e.failed {
+			return false
+		}
 	}
 	if d := got.diff(want); len(want.Keys) > 0 && d != "" {
 		e.viol("standby-keyring-differs", "standby (was %d term(s) behind, root stale=%v) followed without error but its keyring differs from the active node's: %s (standby %s, active %s)", behind, rootStale, d, got, want)
-		return
+		return false
 	}
 	e.sTerm = e.term
+	e.sRoot = append([]byte(nil), e.root...)
+	e.sbCompare("reload-keyring", true)
+	if e.failed {
+		return false
+	}
 	e.r.Count("standby_follows_ok", 1)
 	if behind > 0 {
 		e.r.Count("standby_follows_ok_behind", 1)
@@ -927,6 +1113,107 @@ func (e *c10B) opStandbyX(followOnly bool) {
 		e.r.Count("standby_follows_ok_behind_and_root_stale", 1)
 	}
 	e.readAll(e.s, "standby after follow")
+	return !e.failed
+}
+
+var c10PromoteKeyOps = []string{"rotate", "rotate", "set-rotation-config", "auto-rotate-check", "rotate-root"}
+
+// opPromote: the standby follows the upgrade path and then ACTS AS THE ACTIVE NODE (fail-over):
+// it writes, persists the keyring (rotation / rotation config / encryption count / root-key
+// rotation) and writes again; the old active node steps down (keeps running as the new standby)
+// or is gone (sealed). Then every instance is sealed and a fresh instance must open with the
+// currently valid root key only - not with the all-zero key, not with a superseded one - and
+// read every entry either instance ever wrote.
+func (e *c10B) opPromote(style, keyOp string) {
+	if e.failed || e.s == nil || e.sSealed || e.half {
+		return
+	}
+	if style == "upgrade-only" && !e.pathIntact() {
+		style = "reload"
+	}
+	if !e.sbFollow(style) || e.failed || e.sSealed || e.sTerm != e.term || !bytes.Equal(e.sRoot, e.root) {
+		e.r.Count("promotions_not_possible_standby_not_level", 1)
+		return
+	}
+	stays := !e.sealed && e.rng.Chance(1, 2)
+	if !e.sealed && !stays {
+		e.sealCheck(e.p, "active (going away)")
+		if e.failed {
+			return
+		}
+	}
+	e.step("promote", "standby promoted after %s follow; old active node %s; first keyring persist by the promoted node: %s", style, map[bool]string{true: "steps down and keeps running as standby", false: "is sealed"}[stays], keyOp)
+	e.p, e.s = e.s, e.p
+	e.sealed, e.sSealed = false, !stays
+	e.sTerm = e.term
+	e.sRoot = append([]byte(nil), e.root...)
+	e.ref = c10Snap(c10Raw(e.p).keyring)
+	e.r.Count("promotions", 1)
+	e.r.Count("promotions:"+style, 1)
+	e.r.Count("promotions_then:"+keyOp, 1)
+	e.opPut()
+	if e.failed {
+		return
+	}
+	switch keyOp {
+	case "rotate":
+		e.opRotate(true)
+	case "rotate-root":
+		e.opRotateRoot()
+	default:
+		e.persistOnly(keyOp)
+	}
+	if e.failed {
+		return
+	}
+	e.opPut()
+	if e.failed || !e.readAll(e.p, "promoted standby") {
+		return
+	}
+	if !e.sSealed {
+		// the node that stepped down follows the node that took over
+		e.sbFollow(kit.Pick(e.rng, []string{"reload", "upgrade-only"}))
+		if e.failed {
+			return
+		}
+	}
+	if !e.sSealed {
+		e.sealCheck(e.s, "standby (stepped-down node)")
+		e.sSealed = true
+	}
+	e.step("seal", "seal every instance after the promotion")
+	e.sealCheck(e.p, "promoted standby")
+	e.sealed = true
+	if e.failed {
+		return
+	}
+	before := e.r.Get("persisted_restart_checks")
+	e.persisted()
+	if e.r.Get("persisted_restart_checks") > before {
+		e.r.Count("fresh_instance_unseals_after_promotion", 1)
+		if len(e.oldRoots) > 0 {
+			e.r.Count("fresh_instance_unseals_after_promotion_with_superseded_root_keys", 1)
+		}
+	}
+}
+
+func (e *c10B) opStandbyX(followOnly bool) {
+	if e.s == nil || e.sSealed {
+		e.sbUnseal()
+		return
+	}
+	switch x := e.rng.Intn(8); {
+	case x == 0 && !followOnly:
+		e.step("standby-seal", "standby seal")
+		e.sealCheck(e.s, "standby")
+		e.sSealed = true
+	case x <= 2 && !followOnly && !e.half:
+		e.opPromote(kit.Pick(e.rng, []string{"reload", "upgrade-only"}), kit.Pick(e.rng, c10PromoteKeyOps))
+	case x == 3:
+		e.sbFollow("upgrade-only")
+	default:
+		e.sbFollow("reload")
+	}
 }
 
 func (e *c10B) opDestroyUpgrade() {
@@ -1231,6 +1518,12 @@ func TestVerif_C10_BarrierHistories(t *testing.T) {
 	r.Require("standby_follows_ok_behind_and_root_stale", 30/div)
 	r.Require("persisted_restart_checks", 700/div)
 	r.Require("ciphertexts_reopened", 1000/div)
+	r.Require("standby_steps_compared:check-upgrade", 150/div)
+	r.Require("standby_steps_compared_field_by_field_equal", 500/div)
+	r.Require("standby_upgrade_only_follows_ok_behind", 20/div)
+	r.Require("promotions", 50/div)
+	r.Require("promotions:upgrade-only", 25/div)
+	r.Require("fresh_instance_unseals_after_promotion", 50/div)
 }
 
 func TestVerif_C10_BarrierFaults(t *testing.T) {
